@@ -1,4 +1,6 @@
 """Helpers shared by the E1 checks: building a case, calling the real transform on flat rows."""
+import zlib
+
 import numpy as np
 import torch
 
@@ -35,10 +37,14 @@ class Caller:
         self.ctx_k = ctx_k
         self.calls = 0
 
-    def _run(self, fn, X, shape=None):
+    def _run(self, fn, X, shape=None, inverse=False):
         x = torch.as_tensor(np.asarray(X), dtype=self.dtype).reshape(-1, *(shape or self.shape))
         ctx = context_for(self.s, self.cfg, x.shape[0], self.dtype, self.ctx_k)
         self.calls += 1
+        # the global RNG is owned by the harness: its state before a call is a function of the call itself (direction and input
+        # bits), so a tree that draws random numbers during evaluation still replays identically -- and gets different draws in
+        # the two directions
+        torch.manual_seed(zlib.crc32(x.detach().contiguous().numpy().tobytes()) ^ (0x5A5A if inverse else 0))
         with torch.no_grad():
             y, ld = fn(x, ctx) if ctx is not None else fn(x)
         return y, ld
@@ -48,7 +54,7 @@ class Caller:
         return y.reshape(y.shape[0], -1).double().numpy(), ld.double().numpy(), (y, ld)
 
     def inv(self, X):
-        y, ld = self._run(self.m.inverse, X, self.s.out_shape(self.cfg))
+        y, ld = self._run(self.m.inverse, X, self.s.out_shape(self.cfg), inverse=True)
         return y.reshape(y.shape[0], -1).double().numpy(), ld.double().numpy(), (y, ld)
 
 
